@@ -197,3 +197,257 @@ def mac_helpers(prog, chk, rule="tag-comparison"):
                     problems.append("the output is truncated or padded")
             chk.ob(rule, "%s::compute|Ok" % short, not problems, body.loc(), detail="; ".join(problems), how="E2 return state: the digest output returned")
         chk.floor(rule + "-%s-compute-ok-states" % short, n_ok, 1)
+
+
+# ------------------------------------------------------------------------------------------------ validation
+
+VALIDATE = M_ + "Message::<'a>::validate_integrity"
+MSGNS = M_ + "Message::<'a>::"
+OPTION = "std::option::Option"
+
+
+def model_raw_attribute(c):
+    """summary of Message::raw_attribute(type): None, or the (first) attribute of that type - header consistent with the
+    value, the value an identified content `attr:<type>` (that lookups are first-match over the walk is C02/C10)"""
+    from absint.interp import event
+    t = c.deref(c.args[1])
+    while isinstance(t, Struct) and len(t.f) == 1:
+        t = t.get(0)
+    tv = c.st.sys.const_value(t.e) if isinstance(t, Num) else None
+    if tv is None:
+        return [(c.st, c.top_ret())]
+    s_no, s_yes = c.st.copy(), c.st
+    event(s_no, "lookup-attr", tv, False)
+    event(s_yes, "lookup-attr", tv, True)
+    ln = Lin.var("attrlen_%04x" % tv)
+    s_yes.sys.add_range(ln, 0, 65535)
+    s_yes.cells["ghost:q:attrlen_%04x" % tv] = Num(ln)
+    val = Seq(ln, None, None, None, ("attr:%04x" % tv, Lin.const(0)))
+    raw = Struct({0: Struct({0: Struct({0: Num(Lin.const(tv))}), 1: Num(ln)}), 1: Enum("stun_types::data::Data", {0: Struct({0: Struct({0: val})})})})
+    return [(s_no, Enum(OPTION, {0: Struct()})), (s_yes, Enum(OPTION, {1: Struct({0: raw})}))]
+
+
+def model_make_hmac_key(c):
+    """summary of make_hmac_key (decided on its own by the key-material rule): the key derived from these credentials"""
+    a = c.args[0]
+    who = a.cell.rsplit(":", 1)[-1] if isinstance(a, Ref) else "?"
+    n = c.it.fresh_num(c.st, 0, None, "keylen")
+    return [(c.st, Seq(n.e, None, None, None, ("key(%s)" % who, Lin.const(0))))]
+
+
+def read_var(run, st, base, off, nbytes):
+    """the value of the latest big-endian read of `nbytes` at `off` of content `base` on this path (None if no read site's
+    latest read was there)"""
+    for c_, g in st.cells.items():
+        if c_.startswith("ghost:rd:") and c_.endswith(":%s:%d" % (base, nbytes)) and isinstance(g, Struct) and isinstance(g.get(1), Num) \
+                and isinstance(g.get(0), Num) and st.sys.entails_eq(g.get(1).e - off):
+            return g.get(0).e
+    return None
+
+
+def validate_side(prog, chk, rule="validate-side"):
+    body = prog.bodies.get(VALIDATE)
+    if body is None:
+        chk.fail(rule, "validate_integrity not found")
+        return
+    r = Run(prog, VALIDATE, track_content=True, max_parts=4000,
+            local_models={MSGNS + "raw_attribute": model_raw_attribute, KEYFN: model_make_hmac_key})
+    if r.error or not r.results:
+        chk.fail(rule, "validate_integrity|analysis", detail=r.error or "no return state")
+        return
+    ALG = {"Sha1": ("hmac-sha1", 0x0008), "Sha256": ("hmac-sha256", 0x001C)}
+    n_ok = {"Sha1": 0, "Sha256": 0}
+    n_missing = 0
+    for st, ret in r.results:
+        tr = r.trace(st)
+        macs = [e for e in tr if e[0] == "mac-verify"]
+        looks = {e[1]: e[2] for e in tr if e[0] == "lookup-attr"}
+        res = variant_of(prog, ret)
+        problems = []
+        if res == "Ok":
+            algo = variant_of(prog, ret.v[0].get(0))
+            if algo not in ALG:
+                chk.fail(rule, "validate_integrity|Ok with an undecided algorithm", body.loc(), detail=repr(ret))
+                continue
+            n_ok[algo] += 1
+            mac, ty = ALG[algo]
+            if len(macs) != 1 or macs[0][6] is not True:
+                problems.append("Ok(%s) without exactly one successful MAC comparison (%d comparison(s), verdicts %r)" % (algo, len(macs), [m[6] for m in macs]))
+            # which attribute was chosen
+            if algo == "Sha256" and looks.get(0x001C) is not True:
+                problems.append("Ok(Sha256) although MESSAGE-INTEGRITY-SHA256 was not found")
+            if algo == "Sha1" and not (looks.get(0x0008) is True and looks.get(0x001C) is False):
+                problems.append("Ok(Sha1) without MESSAGE-INTEGRITY found and MESSAGE-INTEGRITY-SHA256 absent (lookups %r)" % (looks,))
+            for e in macs:
+                if e[1] != mac:
+                    problems.append("the MAC is %s for %s" % (e[1], algo))
+                ks = content_segments(st, e[2])
+                if not (ks and len(ks) == 1 and ks[0][0] == "win" and re.match(r"^key\(a\d+\*credentials\)$", str(ks[0][1])) and st.sys.entails_eq(ks[0][2]) and isinstance(e[2], Seq) and st.sys.entails_eq(ks[0][3] - e[2].len)):
+                    problems.append("the MAC key is %s, not make_hmac_key(credentials)" % show_segments(ks))
+                ss = content_segments(st, e[3])
+                okd = False
+                if ss and len(ss) == 3 and ss[0][0] == "win" and ss[1][0] == "be" and ss[2][0] == "win" and ss[0][1] == ss[2][1] == "in:self_data" \
+                        and st.sys.entails_eq(ss[0][2]) and st.sys.entails_eq(ss[0][3] - 2) and ss[1][1] == 2 and st.sys.entails_eq(ss[2][2] - 4):
+                    off = ss[2][3] + 4
+                    tyv = read_var(r, st, "in:self_data", off, 2)
+                    lnv = read_var(r, st, "in:self_data", off + 2, 2)
+                    if tyv is None or not st.sys.entails_eq(tyv - ty):
+                        problems.append("the MAC input ends at offset %r, which is not shown to be the start of an attribute of type 0x%04x" % (st.sys.reduce(off), ty))
+                    v = ss[1][2]
+                    if v is None:
+                        problems.append("the length field is rewritten to an unknown value")
+                    elif lnv is not None and st.sys.entails_eq(v - off - lnv - 4 + 20):
+                        okd = True
+                    elif algo == "Sha1" and st.sys.entails_eq(v - off - 24 + 20):
+                        okd = True          # MESSAGE-INTEGRITY is 20 bytes (its typed decoder refuses any other length)
+                    else:
+                        problems.append("the length field is rewritten to %r, not offset + 4 + attribute length - 20" % (st.sys.reduce(v),))
+                else:
+                    problems.append("the MAC input is %s, not self.data[..offset] with the length field rewritten" % show_segments(ss))
+                ts = content_segments(st, e[4])
+                if not (ts and len(ts) == 1 and ts[0][0] == "win" and ts[0][1] == "attr:%04x" % ty and st.sys.entails_eq(ts[0][2]) and isinstance(e[4], Seq)
+                        and st.sys.entails_eq(ts[0][3] - e[4].len) and st.sys.entails_eq(Lin.var("attrlen_%04x" % ty) - e[4].len)):
+                    problems.append("the tag compared is %s, not the whole value of the attribute looked up (attr:%04x)" % (show_segments(ts), ty))
+            for e in macs:
+                if isinstance(e[4], Seq):
+                    tl = e[4].len
+                    if algo == "Sha1" and not st.sys.entails_eq(tl - 20):
+                        problems.append("the SHA-1 tag compared is not 20 bytes")
+                    if algo == "Sha256":
+                        red = st.sys.reduce(tl)
+                        mult4 = all(k_ % 4 == 0 for k_ in red.t.values()) and red.c % 4 == 0
+                        if not (st.sys.entails_ge(tl - 16) and st.sys.entails_ge(Lin.const(32) - tl) and mult4):
+                            problems.append("the SHA-256 tag compared (%r bytes) is not limited to 16..=32 bytes in steps of 4" % (red,))
+            chk.ob(rule, "validate_integrity|Ok(%s)" % algo, not problems, body.loc(), detail="; ".join(sorted(set(problems))),
+                   how="E2 return state: lookups, MAC comparison event (key, input pieces, tag) and the reads that place the offset")
+        else:
+            err = variant_of(prog, ret.v[1].get(0)) if isinstance(ret, Enum) and 1 in ret.v else None
+            if err == "MissingAttribute":
+                n_missing += 1
+                ok = looks.get(0x0008) is False and looks.get(0x001C) is False and not macs
+                chk.ob(rule, "validate_integrity|MissingAttribute only when neither integrity attribute is present", ok, body.loc(), detail="lookups %r" % (looks,), how="E2 return state")
+            if macs and macs[-1][6] is True and len(macs) == 1:
+                chk.ob(rule, "validate_integrity|a successful comparison is not turned into an error", False, body.loc(), detail="returns %s after the MAC comparison succeeded" % err)
+            if not looks.get(0x0008) and not looks.get(0x001C) and 0x0008 in looks and 0x001C in looks and err != "MissingAttribute":
+                chk.ob(rule, "validate_integrity|a message without integrity attribute reports MissingAttribute", False, body.loc(), detail="returns %s" % err)
+    for a_ in ("Sha1", "Sha256"):
+        chk.floor(rule + "-ok-states-" + a_, n_ok[a_], 1)
+    chk.floor(rule + "-missing-states", n_missing, 1)
+
+
+# ------------------------------------------------------------------------------------------------ sealing (build side)
+
+MBNS = M_ + "MessageBuilder::<'a>::"
+MBADT = M_ + "MessageBuilder"
+
+
+def model_build_self(c):
+    """summary of MessageBuilder::build (decided by C03): the serialisation of the builder as it stands"""
+    n = c.it.fresh_num(c.st, 20, 65555, "built_len")
+    return [(c.st, Seq(n.e, None, None, None, ("build(self)", Lin.const(0))))]
+
+
+def patched_build(st, run, segs, total, extra):
+    """pieces == build(self) with the 16-bit length field (bytes 2..4) replaced by its value + extra; -> problem or None"""
+    if not (segs and len(segs) == 3 and segs[0][0] == "win" and segs[1][0] == "be" and segs[2][0] == "win" and segs[0][1] == segs[2][1] == "build(self)"
+            and st.sys.entails_eq(segs[0][2]) and st.sys.entails_eq(segs[0][3] - 2) and segs[1][1] == 2 and st.sys.entails_eq(segs[2][2] - 4)
+            and st.sys.entails_eq(segs[2][3] + 4 - total)):
+        return "the input is %s, not build() with the length field rewritten" % show_segments(segs)
+    old = read_var(run, st, "build(self)", Lin.const(2), 2)
+    v = segs[1][2]
+    if old is None or v is None:
+        return "the length field is rewritten to %r, not its value + %d" % (st.sys.reduce(v) if v is not None else None, extra)
+    if not st.sys.entails_eq(v - old - extra):
+        # without overflow checks (release profile) the 16-bit sum wraps: equal modulo 2^16
+        d = st.sys.reduce(v - old - extra)
+        if not (d.t and all(k_ % 65536 == 0 for k_ in d.t.values()) and d.c % 65536 == 0 and all(re.search(r"_wrap$", x) for x in d.t)):
+            return "the length field is rewritten to %r, not its value + %d" % (st.sys.reduce(v), extra)
+    return None
+
+
+def build_len(st):
+    for v in st.sys.vars():
+        if re.match(r"^t\d+_built_len$", v):
+            return Lin.var(v)
+    return None
+
+
+def build_side(prog, chk, rule="build-side"):
+    key = MBNS + "add_message_integrity"
+    body = prog.bodies.get(key)
+    if body is None:
+        chk.fail(rule, "add_message_integrity not found")
+        return
+    arg = {body.locals[i]["name"]: i for i in range(1, body.arg_count + 1)}
+    results = []
+    for av in ("Sha1", "Sha256"):
+        def setup(run, st, av=av):
+            c_ = run.it.cell_of(run.fr, arg["algorithm"])
+            ev = st.cells.get(c_)
+            if isinstance(ev, Enum):
+                st.cells[c_] = ev.only([v["name"] for v in prog.adts[ev.adt]["variants"]].index(av))
+        r = Run(prog, key, track_content=True, max_parts=4000, setup=setup, local_models={MBNS + "build": model_build_self, KEYFN: model_make_hmac_key})
+        if r.error or not r.results:
+            chk.fail(rule, "add_message_integrity|analysis", detail=r.error or "no return state")
+            return
+        results += [(r, st, ret) for st, ret in r.results]
+    names = [f["name"] for f in prog.adts[MBADT]["variants"][0]["fields"]]
+    i_attrs, i_types = names.index("attributes"), names.index("attribute_types")
+    ALG = {"Sha1": ("hmac-sha1", 0x0008, 20), "Sha256": ("hmac-sha256", 0x001C, 32)}
+    n_ok = {"Sha1": 0, "Sha256": 0}
+    for r, st, ret in results:
+        tr = r.trace(st)
+        digs = [e for e in tr if e[0] == "digest" and str(e[1]).startswith("hmac")]
+        pushes = [e for e in tr if e[0] == "push"]
+        res = variant_of(prog, ret)
+        algv = st.cells.get(r.it.cell_of(r.fr, arg["algorithm"]))
+        algo = variant_of(prog, algv)
+        problems = []
+        if res == "Ok":
+            if algo not in ALG:
+                chk.fail(rule, "add_message_integrity|Ok for an undecided algorithm", body.loc(), detail=repr(algv))
+                continue
+            n_ok[algo] += 1
+            mac, ty, tl = ALG[algo]
+            if len(digs) != 1:
+                problems.append("%d MAC computations on the path" % len(digs))
+            for e in digs:
+                if e[1] != mac:
+                    problems.append("the MAC is %s for %s" % (e[1], algo))
+                ks = content_segments(st, e[2])
+                if not (ks and len(ks) == 1 and ks[0][0] == "win" and re.match(r"^key\(a\d+\*credentials\)$", str(ks[0][1])) and st.sys.entails_eq(ks[0][2])
+                        and isinstance(e[2], Seq) and st.sys.entails_eq(ks[0][3] - e[2].len)):
+                    problems.append("the MAC key is %s, not make_hmac_key(credentials)" % show_segments(ks))
+                pr = patched_build(st, r, content_segments(st, e[3]), e[3].len if isinstance(e[3], Seq) else None, 4 + tl)
+                if pr:
+                    problems.append("MAC input: " + pr)
+            want_cells = ["a1*self.%d" % i_attrs, "a1*self.%d" % i_types]
+            if [e[1] for e in pushes] != want_cells:
+                problems.append("the builder is not extended by exactly one attribute and its type (pushes to %r)" % ([e[1] for e in pushes],))
+            else:
+                at, tyv = pushes[0][2], pushes[1][2]
+                raw = at.v[next(iter(at.v))].get(0) if isinstance(at, Enum) and len(at.v) == 1 else None
+                okp = False
+                if isinstance(raw, Struct):
+                    hdr, val = raw.get(0), raw.get(1)
+                    t_ = hdr.get(0).get(0) if isinstance(hdr, Struct) and isinstance(hdr.get(0), Struct) else None
+                    l_ = hdr.get(1) if isinstance(hdr, Struct) else None
+                    from rules.agent_e2 import data_bytes
+                    vb = data_bytes(val)
+                    vs = content_segments(st, vb)
+                    d = r.it.contents.get(vs[0][1]) if vs and len(vs) == 1 and vs[0][0] == "win" else None
+                    okp = (isinstance(t_, Num) and st.sys.const_value(t_.e) == ty and isinstance(l_, Num) and st.sys.const_value(l_.e) == tl
+                           and d is not None and d[0] == "digest" and d[1] == mac and st.sys.entails_eq(vs[0][2]) and st.sys.entails_eq(vs[0][3] - tl)
+                           and digs and d[3] is digs[0][3])
+                if not okp:
+                    problems.append("the attribute added is not (type 0x%04x, length %d, value = the whole MAC just computed): %r" % (ty, tl, at))
+                t2 = tyv.get(0) if isinstance(tyv, Struct) else None
+                if not (isinstance(t2, Num) and st.sys.const_value(t2.e) == ty):
+                    problems.append("the type recorded for it is %r" % (tyv,))
+            chk.ob(rule, "add_message_integrity|Ok(%s)" % algo, not problems, body.loc(), detail="; ".join(sorted(set(problems))),
+                   how="E2 return state: MAC computation event (key, input pieces) and the values pushed to the builder")
+        else:
+            if pushes:
+                chk.ob(rule, "add_message_integrity|a refused call leaves the builder unchanged", False, body.loc(), detail="pushes %r" % ([e[1] for e in pushes],))
+    for a_ in ("Sha1", "Sha256"):
+        chk.floor(rule + "-ok-states-" + a_, n_ok[a_], 1)
